@@ -46,6 +46,10 @@ type PeerCfg struct {
 	ReplyChunk   int   `json:"reply_chunk,omitempty"`        // deliver the automatic OPEN reply in pieces of this size ...
 	ReplyChunkGapUS int64 `json:"reply_chunk_gap_us,omitempty"` // ... this far apart (slow, fragmenting path)
 	Active bool `json:"active,omitempty"` // DUT dials out (non passive)
+	ReconnectUS int64 `json:"reconnect_us,omitempty"` // DUT reconnect interval of an active peer
+	DialTarget bool `json:"dial_target,omitempty"` // connections dialled by the DUT to this address end at this scripted peer
+	Shadow     bool `json:"shadow,omitempty"`      // second scripted endpoint of a neighbour that is already configured (C24)
+	ManualOpen bool `json:"manual_open,omitempty"` // the scripted peer does not answer OPEN by itself
 }
 
 func (c PeerCfg) IBGP(local uint32) bool { return c.AS == local }
@@ -98,6 +102,18 @@ type Peer struct {
 
 	onUpdate func(p *Peer, c *Conn, u *Update, raw []byte)
 	OpenOverride *OpenSpec // OPEN to send instead of the configuration's (C22)
+	RefuseDial   bool      // connections dialled by the DUT are refused
+	Conns        []*Conn   // every connection this endpoint has had
+}
+
+// acceptFromDUT is called (on a DUT goroutine) when the DUT dials this neighbour.
+func (p *Peer) acceptFromDUT() *Conn {
+	p.connGen++
+	c := p.env.NewConn(p.Cfg.Name+"-out", &net.TCPAddr{IP: net.IPv4(10, 0, 0, 254), Port: 40000 + p.connGen}, p.TCPAddr(179),
+		time.Duration(p.Cfg.MinDelayUS)*time.Microsecond, time.Duration(p.Cfg.JitterUS)*time.Microsecond)
+	p.attach(c)
+	p.env.trace(fmt.Sprintf("%s dialled-by-dut", c.name))
+	return c
 }
 
 func (p *Peer) TCPAddr(port int) *net.TCPAddr {
@@ -120,6 +136,7 @@ func (p *Peer) Connect() *Conn {
 
 func (p *Peer) attach(c *Conn) {
 	p.conn = c
+	p.Conns = append(p.Conns, c)
 	p.rx = nil
 	p.state = psIdle
 	p.DUTOpen = nil
